@@ -289,10 +289,35 @@ var tvals = []tval{
 	{v: strings.Repeat("kl", 300), typ: (*string)(nil), url: strings.Repeat("kl", 300)},
 }
 
+// values that are not strings (ids from bvalBase on): they are only shown, in the contexts
+// that accept their type, never passed to macros. Their show functions issue several Write calls.
+const bvalBase = 100
+
+var bvals = []tval{
+	{v: []byte("ab<c"), typ: (*[]byte)(nil)},
+	{v: patternBytes(769), typ: (*[]byte)(nil)},
+	{v: []byte{}, typ: (*[]byte)(nil)},
+	{v: []any{1, "a<", []byte("xy")}, typ: (*[]any)(nil)},
+	{v: map[string]int{"b": 2, "a": 1}, typ: (*map[string]int)(nil)},
+}
+
+// the contexts (render context bytes) each of them is shown in
+var bvalCtxs = [][]byte{{1, 2, 3, 4}, {2, 3, 4}, {1, 3, 4}, {3, 4}, {3, 4}}
+
+func tvalByID(id int) tval {
+	if id >= bvalBase {
+		return bvals[id-bvalBase]
+	}
+	return tvals[id]
+}
+
 func tvalGlobals() native.Declarations {
 	d := native.Declarations{}
 	for i, v := range tvals {
 		d[valName(i)] = v.typ
+	}
+	for i, v := range bvals {
+		d[valName(bvalBase+i)] = v.typ
 	}
 	return d
 }
@@ -302,7 +327,22 @@ func tvalVars() map[string]any {
 	for i, v := range tvals {
 		m[valName(i)] = v.v
 	}
+	for i, v := range bvals {
+		m[valName(bvalBase+i)] = v.v
+	}
 	return m
+}
+
+// bvalFor picks a value of bvals that can be shown in the context c
+func (g *gen) bvalFor(c byte) sExp {
+	for {
+		i := g.c.Rng.Intn(len(bvals))
+		for _, x := range bvalCtxs[i] {
+			if x == c {
+				return sExp{kind: 'v', n: bvalBase + i}
+			}
+		}
+	}
 }
 
 // valsField: what Show does with each value in each context byte used by the set
@@ -337,11 +377,24 @@ func (fs *fileSet) valsField() string {
 	}
 	sort.Ints(cs)
 	var parts []string
-	for id, v := range tvals {
-		if !used[id] {
-			continue
-		}
+	var ids []int
+	for id := range used {
+		ids = append(ids, id)
+	}
+	sort.Ints(ids)
+	for _, id := range ids {
+		v := tvalByID(id)
 		for _, c := range cs {
+			if id >= bvalBase {
+				// only in the contexts it is shown in (elsewhere the checker rejects it)
+				ok := false
+				for _, x := range bvalCtxs[id-bvalBase] {
+					ok = ok || x == byte(c)
+				}
+				if !ok {
+					continue
+				}
+			}
 			o := rop{c: byte(c), val: rval{v: v.v, url: v.url, bad: v.bad}}
 			o.prepare()
 			f := o.field() // S:c:chunks:err:url
@@ -559,6 +612,9 @@ func (g *gen) body(f int, in *sFile, child *sFile, nparams int, depth int, n int
 			ns = append(ns, g.text(f))
 		case k < 5:
 			ns = append(ns, sNode{kind: 'S', c: plain, e: g.valExp(nparams)})
+		case k == 5 && (f == fJS || f == fJSON || f == fCSS) && !g.plainOnly:
+			// a byte slice or a composite value: several Write calls for one show
+			ns = append(ns, sNode{kind: 'S', c: plain, e: g.bvalFor(plain)})
 		case k == 5 && f == fHTML && !g.noURL && !g.plainOnly:
 			// a URL attribute: texts and values only
 			q := []string{`"`, `'`, ``}[g.c.Rng.Intn(3)]
@@ -577,7 +633,13 @@ func (g *gen) body(f int, in *sFile, child *sFile, nparams int, depth int, n int
 			ns = append(ns, sNode{kind: 'T', txt: q + ">"})
 		case k == 6 && f == fHTML && !g.plainOnly:
 			// other contexts of HTML
-			switch g.c.Rng.Intn(4) {
+			switch g.c.Rng.Intn(7) {
+			case 4:
+				ns = append(ns, sNode{kind: 'T', txt: `<script>var a = `}, sNode{kind: 'S', c: 3, e: g.bvalFor(3)}, sNode{kind: 'T', txt: `;</script>`})
+			case 5:
+				ns = append(ns, sNode{kind: 'T', txt: `<style>a{b:`}, sNode{kind: 'S', c: 2, e: g.bvalFor(2)}, sNode{kind: 'T', txt: `}</style>`})
+			case 6:
+				ns = append(ns, sNode{kind: 'S', c: 1, e: g.bvalFor(1)})
 			case 0:
 				ns = append(ns, sNode{kind: 'T', txt: `<p title="`}, sNode{kind: 'S', c: 7, e: g.valExp(nparams)}, sNode{kind: 'T', txt: `">`})
 			case 1:
